@@ -16,6 +16,6 @@ git apply "$m/patch.diff" || { echo "PATCH-FAILED $m"; exit 2; }
 mut=$(GOARCH=${DEMO_GOARCH:-$(go env GOARCH)} go test $DEMO_FLAGS -vet=off -count=1 -timeout 180s -run "^($names)\$" $pkg 2>&1 | tail -1)
 rm -f "$place"
 suite=$(go build ./... 2>&1 && go test -vet=off -count=1 ./... 2>&1 | grep -v '^ok' | head -3)
-fired=$(/verif/bin/utilcheck -repo "$wt" -prop $props -no-evidence 2>&1 | grep -a '^VIOLATION' | sed 's/VIOLATION property=\([A-Z0-9]*\).*/\1/' | sort -u | tr '\n' ' ')
+fired=$(GOARCH=${DEMO_GOARCH:-$(go env GOARCH)} /verif/bin/utilcheck -repo "$wt" -prop $props -no-evidence 2>&1 | grep -a '^VIOLATION' | sed 's/VIOLATION property=\([A-Z0-9]*\).*/\1/' | sort -u | tr '\n' ' ')
 git checkout -q -- . ; git clean -fdq -e '_mutants*' -e '_refactors'
 echo "MUTANT $m | demo-clean: ${base:0:40} | demo-mutant: ${mut:0:40} | suite-nonok: ${suite:-none} | FIRED: ${fired:-NONE}"
